@@ -9,6 +9,7 @@ Status (see props/C20.json):
 * statement only: `pool_invariant_statement` (preservation by every operation) — checked by correspondence + oracle.
 -/
 import YouVerif.C20.Proofs
+import YouVerif.C20.ProofsWState
 namespace YouVerif.C20.Props
 open YouVerif.C20
 
@@ -56,6 +57,34 @@ theorem init_invariant (cfg : Config) (pl gl : Nat) (accts : List (Nat × Nat)) 
     obtain ⟨h1, h2, _, _⟩ := hac t.sender
     rw [h1, h2]
     simp [init]
+
+/-! ## the structural clauses, for every operation and every reachable state -/
+
+/-- CLAUSE (all ops): every operation preserves the structural per-account invariant `AcctW` of every account:
+lists hold only the account's own transactions, nonces strictly increase in pending and in the queue, no nonce is
+both pending and queued, the cost/gas caches bound the lists, accounts with pending transactions have a heartbeat. -/
+theorem structure_invariant (s : State) (op : Op) (h : AllW s) : AllW (step s op).1 := h.step op
+
+/-- ... hence it holds in every state reachable from a fresh pool by any operation sequence. -/
+theorem structure_reachable (cfg : Config) (pl gl : Nat) (accts : List (Nat × Nat)) (ops : List Op) :
+    AllW (run (init cfg pl gl accts) ops) := by
+  unfold run
+  exact foldl_preserves AllW _ (fun s op hs => hs.step op) ops _ (allW_init cfg pl gl accts)
+
+/-- CLAUSE "pending or queued but not both", over all accounts, in every state satisfying the structural invariant
+(so, by `structure_reachable`, in every reachable state). -/
+theorem never_pending_and_queued (s : State) (h : AllW s) (a b : Nat) (t : Tx)
+    (hp : t ∈ (s.acct a).pending.txs) : t ∉ (s.acct b).queue.txs := by
+  intro hq
+  have ha := (h a).pSender t hp
+  have hb := (h b).qSender t hq
+  subst ha
+  subst hb
+  exact (h t.sender).disj t hp t hq rfl
+
+/-- a transaction sits at most once in a list (strictly increasing nonces) -/
+theorem lists_have_unique_nonces (s : State) (h : AllW s) (a : Nat) :
+    Sorted (s.acct a).pending.txs ∧ Sorted (s.acct a).queue.txs := ⟨(h a).pSorted, (h a).qSorted⟩
 
 /-! ## admission -/
 
